@@ -1,6 +1,7 @@
 (* C42 -- Redirections route bytes and values exactly as specified.
    Property theorems only; every proof is [exact <lemma>]. *)
-From verif Require Import lib.Base model.C42_Ports model.C42 proofs.C42_proofs.
+From verif Require Import lib.Base model.C42_Ports model.C42 model.C40 proofs.C42_proofs
+  proofs.C40_balance.
 Open Scope nat_scope.
 
 (* > truncates, >> appends, <> opens for reading and writing without truncating
@@ -44,22 +45,23 @@ Proof.
 Qed.
 Print Assumptions C42_closed_port_value_write_raises.
 
-(* Invalid file descriptors raise an exception.
-   FULL STATEMENT (false for the code as it is, see the _refuted theorems):
-     forall objs x r, (the destination of r is negative, or its source is &v with
-       v negative, or v names an absent port) ->
-       exists x', exec_redir Impl objs x r = RExc EInvalidFD x'.
-   Proved: the part for source fds >= 0 naming absent ports (both flavours), and
-   the full statement for the reference semantics. *)
-Theorem C42_invalid_fd_raises_partial :
-  forall fl objs x r d v,
-    eval_dst r = Some (Z.of_nat d) ->
-    r_src r = SFd (FdNum (Z.of_nat v)) ->
-    tget (fs_T x) v = None ->
-    exists x', exec_redir fl objs x r = RExc EInvalidFD x'.
-Proof. exact invalid_src_fd_raises. Qed.
-Print Assumptions C42_invalid_fd_raises_partial.
+(* Invalid file descriptors raise an exception: a negative destination, a
+   source below -1, a source naming an absent port -- for every table and state
+   (full since the fix fdddbae; before it the first two panicked). *)
+Theorem C42_invalid_fd_raises :
+  forall objs x r,
+    (exists dz, eval_dst r = Some dz /\ (dz < 0)%Z)
+    \/ (exists dz z, eval_dst r = Some dz /\ (0 <= dz)%Z /\ r_src r = SFd (FdNum z) /\ (z < -1)%Z)
+    \/ (exists d v, eval_dst r = Some (Z.of_nat d) /\ r_src r = SFd (FdNum (Z.of_nat v))
+                    /\ tget (fs_T x) v = None) ->
+    exists x', exec_redir Impl objs x r = RExc EInvalidFD x'.
+Proof. exact invalid_fd_raises. Qed.
+Print Assumptions C42_invalid_fd_raises.
 
+(* FULL STATEMENT including the source fd -1 (false for the code as it is):
+     forall objs x r z, r_src r = SFd (FdNum z) -> (z < 0)%Z -> eval_dst r = Some dz -> 0 <= dz ->
+       exists x', exec_redir Impl objs x r = RExc EInvalidFD x'.
+   It holds for the reference semantics: *)
 Theorem C42_invalid_fd_raises_in_reference_semantics :
   forall objs x r,
     (exists dz, eval_dst r = Some dz /\ (dz < 0)%Z)
@@ -68,24 +70,77 @@ Theorem C42_invalid_fd_raises_in_reference_semantics :
 Proof. exact spec_negative_fd_raises. Qed.
 Print Assumptions C42_invalid_fd_raises_in_reference_semantics.
 
-(* echo hi -1>f : growAccess indexes the port table with -1 and the process dies *)
-Theorem C42_invalid_fd_raises_negative_dst_refuted :
-  exists objs x r, eval_dst r = Some (-1)%Z /\ exec_redir Impl objs x r = RCrash.
-Proof. exact negative_dst_refuted. Qed.
-Print Assumptions C42_invalid_fd_raises_negative_dst_refuted.
-
-(* echo hi >&-2 : fm.ports[-2] *)
-Theorem C42_invalid_fd_raises_negative_src_refuted :
-  exists objs x r, r_src r = SFd (FdNum (-2)) /\ exec_redir Impl objs x r = RCrash.
-Proof. exact negative_src_refuted. Qed.
-Print Assumptions C42_invalid_fd_raises_negative_src_refuted.
-
 (* nop >&-1 : the invalid fd -1 is silently taken as "close", no exception *)
 Theorem C42_invalid_fd_raises_minus_one_refuted :
   exists x', exec_redir Impl [] x0 (mkRedir None MWrite (SFd (FdNum (-1)))) = ROk x'
              /\ tget (fs_T x') 1 = Some closed_port.
 Proof. exact minus_one_src_fd_closes. Qed.
 Print Assumptions C42_invalid_fd_raises_minus_one_refuted.
+
+(* Routing.  Executing rs1 ++ [r] is executing rs1 and then r (left to right);
+   r reroutes exactly its destination fd, to what its source designates in the
+   table left by rs1 (a freshly opened file, the port another fd holds at that
+   moment, the closed port, a file object), and leaves every other fd as rs1 left
+   it.  By induction on the list this fixes the port behind every fd after any
+   redirection list; bytes and values written to fd n go to that port's file and
+   channel by definition of the writers (write_bytes / write_value on tget T n). *)
+Theorem C42_redir_routes :
+  forall objs rs1 r x x1 x2,
+    exec_redirs Impl objs x rs1 = ROk x1 ->
+    exec_redir Impl objs x1 r = ROk x2 ->
+    exec_redirs Impl objs x (rs1 ++ [r]) = ROk x2
+    /\ exists d p, eval_dst r = Some (Z.of_nat d)
+                   /\ tget (fs_T x2) d = Some p
+                   /\ designates objs x1 r p
+                   /\ forall i, i <> d -> tget (fs_T x2) i = tget (fs_T x1) i.
+Proof. exact redir_routes. Qed.
+Print Assumptions C42_redir_routes.
+
+(* Files opened by a redirection are closed when the form finishes: for every
+   redirection list, every body of the statement language of model/C40.v, every
+   initial table with at least two ports and every state, on the normal exit and
+   on every exception exit (a failing redirection, a failing or interrupted
+   body): every file description created since form entry is closed, and no
+   other handle changed its open/closed status. *)
+Theorem C42_opened_files_closed_at_form_end :
+  forall fuel T rs body s s',
+    2 <= length T ->
+    (form_of (run fuel) T [] None rs body s = Ok s'
+     \/ exists k, form_of (run fuel) T [] None rs body s = Exc k s') ->
+    (forall i, length (s_ofds s) <= i -> handle_open s' (HOfd i) = false)
+    /\ (forall h, handle_open s' h = handle_open s h)
+    /\ live_fds s' = live_fds s.
+Proof. exact opened_files_closed_at_form_end. Qed.
+Print Assumptions C42_opened_files_closed_at_form_end.
+
+(* ... but a file may be closed too early.  FULL STATEMENT of routing at the
+   level of bytes (false for the code as it is): after any successful redirection
+   list, bytes written to an fd whose port holds a file opened by the form reach
+   that file.  Witness: { echo out; echo err >&2 } >f0 2>&1 >f1 -- fd 2 still
+   holds the port of f0, which the third redirection closed. *)
+Theorem C42_routed_file_stays_open_refuted :
+  exists o, observe Impl [None; None] [] []
+      (PForm (Form (CBlock [Form (CEcho [111%N]) [];
+                            Form (CEcho [101%N]) [mkRedir None MWrite (SFd (FdNum 2))]])
+                   [mkRedir None MWrite (SFile 0); mkRedir (Some (FdNum 2)) MWrite (SFd (FdNum 1));
+                    mkRedir None MWrite (SFile 1)])) = Some o
+    /\ ob_exc o = Some EIO
+    /\ check_C42 [None; None] [] []
+      (PForm (Form (CBlock [Form (CEcho [111%N]) [];
+                            Form (CEcho [101%N]) [mkRedir None MWrite (SFd (FdNum 2))]])
+                   [mkRedir None MWrite (SFile 0); mkRedir (Some (FdNum 2)) MWrite (SFd (FdNum 1));
+                    mkRedir None MWrite (SFile 1)])) o = false.
+Proof. exact routed_file_closed_early. Qed.
+Print Assumptions C42_routed_file_stays_open_refuted.
+
+(* echo w | slurp <f : the epilogue of a pipeline stage signals the writer through
+   whatever port 0 is by then; with fd 0 redirected the process dies *)
+Theorem C42_pipe_reader_stdin_redirect_refuted :
+  observe Impl [Some []] [] []
+    (PPipe (Form (CEcho [119%N]) []) (Form CSlurp [mkRedir None MRead (SFile 0)]))
+  = Some (mkObs true None [] [] [] [] 0%Z).
+Proof. exact pipe_reader_stdin_redirect_crashes. Qed.
+Print Assumptions C42_pipe_reader_stdin_redirect_refuted.
 
 (* a destination fd beyond the table makes the table dst+1 entries long: there
    is no upper bound on what one redirection allocates *)
@@ -96,11 +151,11 @@ Theorem C42_huge_fd_allocates :
 Proof. exact huge_fd_allocates. Qed.
 Print Assumptions C42_huge_fd_allocates.
 
-(* the reference semantics never panics in a redirection *)
-Theorem C42_reference_redirection_never_crashes :
-  forall objs x r, exec_redir Spec objs x r <> RCrash.
-Proof. exact spec_redir_never_crashes. Qed.
-Print Assumptions C42_reference_redirection_never_crashes.
+(* no single redirection panics (either flavour) *)
+Theorem C42_redirection_never_crashes :
+  forall fl objs x r, exec_redir fl objs x r <> RCrash.
+Proof. exact redir_never_crashes. Qed.
+Print Assumptions C42_redirection_never_crashes.
 
 (* the oracle evaluated on the implementation's observations is sound *)
 Theorem C42_oracle_sound :
